@@ -212,7 +212,7 @@ def _collect_body(L):
                 L.local("current_frame") == h0.f(cur0, "f_back")))]
 
 
-c.loop("loop#1", invariant=_collect_inv, body_ensures=_collect_body,
+c.loop("while:current_frame is not None", invariant=_collect_inv, body_ensures=_collect_body,
        modifies=lambda L: [("all",)])
 c.ens("returns-the-frames-it-collected", lambda S_: And(S_.is_fresh(S_.new.lget(S_.result, 0), "list"),
                                                         S_.elems(S_.new.lget(S_.result, 0), OBJ("StackFrame", inv=False))),
